@@ -273,13 +273,18 @@ impl ExactSizeIterator for MoveGen {
     /// Give the exact length of this iterator
     fn len(&self) -> usize {
         let mut result = 0;
-        for i in 0..self.moves.len() {
+        // entries before the cursor are used up under the current mask
+        for i in self.index..self.moves.len() {
             if self.moves[i].bitboard & self.iterator_mask == EMPTY {
                 break;
             }
             if self.moves[i].promotion {
                 result += ((self.moves[i].bitboard & self.iterator_mask).popcnt() as usize)
                     * NUM_PROMOTION_PIECES;
+                if i == self.index {
+                    // promotions already yielded for the destination in progress
+                    result -= self.promotion_index;
+                }
             } else {
                 result += (self.moves[i].bitboard & self.iterator_mask).popcnt() as usize;
             }
